@@ -653,6 +653,10 @@ class PDA:
                                            s_to,
                                            stack_to)
         for node in graph.nodes:
+            if "is_start" in graph.nodes[node]:
+                # A state of the PDA, even if it has no transition
+                # pylint: disable=protected-access
+                pda._states.add(pda._pda_obj_creator.to_state(node))
             if graph.nodes[node].get("is_start", False):
                 pda.set_start_state(node)
             if graph.nodes[node].get("is_final", False):
